@@ -1222,3 +1222,25 @@ def checked_arith(ip, st, ci):
         # None exactly when the w-bit operation overflows: not decidable for symbolic operands
         return ("symopt", ("checked", op, vint(r)))
     raise Undecided("%s on %s,%s" % (op, a[0], b[0]))
+
+
+@prim("::saturating_add", "::saturating_sub", "::saturating_mul", "::rotate_left", "::rotate_right", "::swap_bytes", "::reverse_bits", "::pow", "::leading_zeros")
+def int_opaque(ip, st, ci):
+    a = ci["args"][0]
+    op = ci["fn"]["name"]
+    if a[0] == "int":
+        args = [x[1] if x[0] in ("int", "size") else repr(x) for x in ci["args"]]
+        return vint(T.ifn(a[1][1], op, *args))
+    if a[0] == "size" and op == "saturating_sub" and ci["args"][1][0] == "size":
+        return usize_saturating_sub(ip, st, ci)
+    raise Undecided("%s on %s" % (op, a[0]))
+
+
+@prim("<impl usize>::trailing_zeros", "<impl usize>::leading_zeros", "<impl usize>::count_ones", "<impl usize>::is_power_of_two", "<impl usize>::next_power_of_two")
+def usize_opaque(ip, st, ci):
+    a = ci["args"][0]
+    key = "$%s(%r)" % (ci["fn"]["name"], a[1])
+    if ci["fn"]["name"] == "is_power_of_two":
+        return ("bool", ("opaque", key))
+    st.F.add_ge(Lin.sym(key))
+    return vsize(Lin.sym(key))
